@@ -923,6 +923,11 @@ def run(ctx):
         nviol = len(ctx.violations)
         nsemw = c15_semw.run(ctx)
         found += int(len(ctx.violations) > nviol)
+    from vlib import c15_semw as _semw
+    for d in _semw.opt_loop_probe(differ)[:2]:
+        failing(ctx, "repeat with a round count the optimiser folds behaves differently optimised vs unoptimised", d,
+                key="repeat-folded-rounds")
+        found += 1
     T["semw_tie"] = round(time.time() - t0, 1); t0 = time.time()
     # ---- tie
     n = gcalls + nsem + nlow + nreal + nsemw
